@@ -29,6 +29,9 @@ def isolated(func, cases, timeout, chunk):
                 continue
             # the kernels of the external BLAS over-read their operands by up to a vector register: a crash that a slack of 64 bytes
             # before the guard page cures is not attributed to the wrappers (exact footprints are the business of the model comparisons)
+            if os.environ.get("VERIF_EXACT_GUARD") == "1":
+                out.append({"crash": "%s:%s" % (st1, r1)})
+                continue
             os.environ["VERIF_GUARD_SLACK"] = "64"
             try:
                 st2, r2 = isolate.run_isolated(func, [c], timeout=max(10, timeout // 4))
@@ -46,6 +49,8 @@ def isolated(func, cases, timeout, chunk):
 def blas_cases(rnd, n, large):
     from harness.checks import c17
     cases = []
+    if large:
+        c17.DIMS = [2, 3, 3, 3]          # products (d-1)*ld, (d-1)*inc only overflow for d >= 3 with the values below
     for i in range(n):
         f = c17.ALL[i % len(c17.ALL)]
         c = c17.gen_call(rnd, f)
@@ -54,7 +59,7 @@ def blas_cases(rnd, n, large):
         c["conflict"] = None
         if large:
             keys = [k for k in INTKEYS if k in c17.KW[f] or ("@" + k) in c17.POS[f]]
-            for k in rnd.sample(keys, rnd.choice([1, 1, 2])):
+            for k in rnd.sample(keys, rnd.choice([1, 1, 1, 1, 2])):
                 c["a"][k] = rnd.choice(BIG)
         cases.append(c)
     return cases
@@ -286,6 +291,163 @@ def run_shapes(cases):
     return res
 
 
+def index_cases(rnd, n):
+    """boundary boxes of index arguments: every index form with values in -(len+2) .. len+2 on small dense and sparse matrices"""
+    cases = []
+    shapes = [(0, 0), (1, 1), (2, 3), (3, 1), (0, 2)]
+    for _ in range(n):
+        nr, nc = rnd.choice(shapes)
+        L = nr * nc
+        def iv(m_):
+            return rnd.randint(-m_ - 2, m_ + 2)
+        def one(m_):
+            r = rnd.random()
+            if r < 0.35:
+                return ["int", iv(m_)]
+            if r < 0.6:
+                return ["slice", rnd.choice([None, iv(m_)]), rnd.choice([None, iv(m_)]), rnd.choice([None, 1, -1, 2, -2, 0, iv(m_)])]
+            if r < 0.8:
+                return ["list", [iv(m_) for _ in range(rnd.randint(0, 3))]]
+            return ["imat", [iv(m_) for _ in range(rnd.randint(0, 3))]]
+        cases.append({"shape": [nr, nc], "sparse": rnd.random() < 0.5, "tc": rnd.choice(["i", "d", "z"]), "set": rnd.random() < 0.5,
+                      "ix": [one(L)] if rnd.random() < 0.4 else [one(nr), one(nc)], "rhs": rnd.choice(["num", "mat", "spmat", "list"])})
+    return cases
+
+
+def run_index(cases):
+    from cvxopt import matrix, sparse
+    res = []
+    def conv(ix):
+        if ix[0] == "int":
+            return ix[1]
+        if ix[0] == "slice":
+            return slice(ix[1], ix[2], ix[3])
+        if ix[0] == "list":
+            return list(ix[1])
+        return matrix(ix[1], (len(ix[1]), 1), "i")
+    for c in cases:
+        nr, nc = c["shape"]
+        tc = c["tc"] if not c["sparse"] or c["tc"] != "i" else "d"
+        A = matrix([1 + (i % 5) for i in range(nr * nc)], (nr, nc), tc)
+        if c["sparse"]:
+            A = sparse(A)
+        key = conv(c["ix"][0]) if len(c["ix"]) == 1 else (conv(c["ix"][0]), conv(c["ix"][1]))
+        o = {}
+        try:
+            if c["set"]:
+                rhs = {"num": 7, "mat": matrix(7, (1, 1), tc if tc != "i" else "i"), "spmat": sparse(matrix(7.0, (1, 1))), "list": [7]}[c["rhs"]]
+                A[key] = rhs
+            else:
+                B = A[key]
+                if hasattr(B, "size"):
+                    list(B) if not c["sparse"] else B.CCS
+            o["raised"] = "none"
+        except Exception as e:    # noqa
+            o["raised"] = type(e).__name__
+        res.append(o)
+    return res
+
+
+def gemvbox_cases(rnd, n):
+    out = []
+    for _ in range(n):
+        nr, nc = rnd.choice([(2, 3), (1, 2), (3, 1), (2, 2), (0, 2), (2, 0)])
+        out.append({"shape": [nr, nc], "sparse": rnd.random() < 0.8, "tc": rnd.choice(["d", "z"]), "trans": rnd.choice("NTC"),
+                    "m": rnd.randint(-1, 4), "n": rnd.randint(-1, 4), "offsetA": rnd.randint(0, nr * nc + 3), "incx": rnd.choice([1, -1, 2]), "incy": rnd.choice([1, -1, 2]),
+                    "lx": rnd.randint(0, 6), "ly": rnd.randint(0, 6), "f": rnd.choice(["gemv", "gemv", "symv"])})
+    return out
+
+
+def run_gemvbox(cases):
+    from cvxopt import matrix, sparse, base
+    res = []
+    for c in cases:
+        nr, nc = c["shape"]
+        A = matrix([1 + (i % 3) for i in range(nr * nc)], (nr, nc), c["tc"])
+        if c["sparse"]:
+            A = sparse(A)
+        x, y = matrix(1.0, (c["lx"], 1), c["tc"]), matrix(1.0, (c["ly"], 1), c["tc"])
+        o = {}
+        try:
+            if c["f"] == "gemv":
+                base.gemv(A, x, y, trans=c["trans"], m=c["m"], n=c["n"], offsetA=c["offsetA"], incx=c["incx"], incy=c["incy"])
+            else:
+                base.symv(A if c["tc"] == "d" else matrix(1.0, (nr, nc)) if not c["sparse"] else sparse(matrix(1.0, (nr, nc))),
+                          matrix(1.0, (c["lx"], 1)), matrix(1.0, (c["ly"], 1)), n=c["n"], offsetA=c["offsetA"], incx=c["incx"], incy=c["incy"])
+            o["raised"] = "none"
+        except Exception as e:    # noqa
+            o["raised"] = type(e).__name__
+        res.append(o)
+    return res
+
+
+def lapack_shape_cases(rnd, n):
+    names = ["gesv", "getrf", "getrs", "getri", "geqrf", "orgqr", "ormqr", "gelqf", "geqp3", "syev", "syevx", "syevr", "gesvd", "gesdd", "gees", "gels", "potrs", "sytrf", "sytrs", "trtrs", "gbtrf", "gbtrs", "gtsv", "gttrf", "ptsv", "pbtrs", "sysv"]
+    return [{"f": names[i % len(names)], "seed": rnd.randrange(1 << 30)} for i in range(n)]
+
+
+def run_lapack_shapes(cases):
+    """LAPACK wrappers called with one output / auxiliary / right-hand-side matrix that is too small (by a row, a column or an entry): an exception or a
+    normal return (when the routine does not need the missing part), never a crash"""
+    from cvxopt import matrix, lapack
+    res = []
+    for c in cases:
+        rnd = random.Random(c["seed"])
+        tc = rnd.choice(["d", "z"])
+        m, n = rnd.randint(1, 4), rnd.randint(1, 4)
+        sq = rnd.randint(1, 4)
+        nrhs = rnd.randint(1, 2)
+        def M(r, cc, t=tc):
+            r, cc = max(0, r), max(0, cc)
+            return matrix([float(rnd.randint(-2, 2)) + (4.0 if i % (r + 1) == 0 else 0.0) for i in range(r * cc)], (r, cc), t)
+        # exactly one of the shrinkable arguments of the call is too small (the others have their full size)
+        pick = [rnd.randrange(6)]
+        def shrink(k):
+            pick[0] -= 1
+            return k - (rnd.choice([1, 1, 2]) if pick[0] == -1 else 0)
+        f = c["f"]
+        ip = lambda k: matrix(list(range(1, max(0, k) + 1)), (max(0, k), 1), "i")
+        o = {"f": f}
+        try:
+            if f == "gesv": lapack.gesv(M(sq, sq), M(shrink(sq), nrhs), ip(shrink(sq)) if rnd.random() < 0.5 else None)
+            elif f == "getrf": lapack.getrf(M(m, n), ip(shrink(min(m, n))))
+            elif f == "getrs": lapack.getrs(M(sq, sq), ip(shrink(sq)), M(shrink(sq), nrhs), trans=rnd.choice("NTC"))
+            elif f == "getri": lapack.getri(M(sq, shrink(sq)), ip(shrink(sq)))
+            elif f == "geqrf": lapack.geqrf(M(m, n), M(shrink(min(m, n)), 1))
+            elif f == "orgqr": getattr(lapack, "ungqr" if tc == "z" else "orgqr")(M(m, shrink(min(m, n))), M(shrink(min(m, n)), 1))
+            elif f == "ormqr": getattr(lapack, "unmqr" if tc == "z" else "ormqr")(M(m, min(m, n)), M(shrink(min(m, n)), 1), M(shrink(m), 2), side=rnd.choice("LR"))
+            elif f == "gelqf": lapack.gelqf(M(m, n), M(shrink(min(m, n)), 1))
+            elif f == "geqp3": lapack.geqp3(M(m, n), matrix(0, (shrink(n), 1), "i"), M(shrink(min(m, n)), 1))
+            elif f == "syev": getattr(lapack, "heev" if tc == "z" else "syev")(M(sq, sq), matrix(0.0, (shrink(sq), 1)), jobz=rnd.choice("NV"))
+            elif f in ("syevx", "syevr"):
+                nm = ("heev" if tc == "z" else "syev") + f[-1]
+                getattr(lapack, nm)(M(sq, sq), matrix(0.0, (shrink(sq), 1)), jobz="V", range=rnd.choice("AI"), il=1, iu=sq, Z=M(shrink(sq), shrink(sq)))
+            elif f == "gesvd":
+                job = rnd.choice("AS")
+                lapack.gesvd(M(m, n), matrix(0.0, (shrink(min(m, n)), 1)), jobu=job, jobvt=job, U=M(m, shrink(m if job == "A" else min(m, n))), Vt=M(shrink(n if job == "A" else min(m, n)), n))
+            elif f == "gesdd":
+                job = rnd.choice("AS")
+                lapack.gesdd(M(m, n), matrix(0.0, (shrink(min(m, n)), 1)), jobz=job, U=M(m, shrink(m if job == "A" else min(m, n))), Vt=M(shrink(n if job == "A" else min(m, n)), n))
+            elif f == "gees": lapack.gees(M(sq, sq), matrix(0.0, (shrink(sq), 1), "z"), M(shrink(sq), sq))
+            elif f == "gels": lapack.gels(M(m, n), M(shrink(max(m, n)), nrhs), trans=rnd.choice(["N", "C" if tc == "z" else "T"]))
+            elif f == "potrs": lapack.potrs(M(sq, sq), M(shrink(sq), nrhs))
+            elif f == "sytrf": getattr(lapack, "hetrf" if tc == "z" else "sytrf")(M(sq, sq), ip(shrink(sq)))
+            elif f == "sytrs": getattr(lapack, "hetrs" if tc == "z" else "sytrs")(M(sq, sq), ip(shrink(sq)), M(shrink(sq), nrhs))
+            elif f == "sysv": getattr(lapack, "hesv" if tc == "z" else "sysv")(M(sq, sq), M(shrink(sq), nrhs), ip(shrink(sq)) if rnd.random() < 0.5 else None)
+            elif f == "trtrs": lapack.trtrs(M(sq, sq), M(shrink(sq), nrhs))
+            elif f == "gbtrf": lapack.gbtrf(M(shrink(4), sq), sq, 1, ip(shrink(sq)))
+            elif f == "gbtrs": lapack.gbtrs(M(4, sq), 1, ip(shrink(sq)), M(shrink(sq), nrhs))
+            elif f == "gtsv": lapack.gtsv(M(shrink(sq - 1), 1), M(shrink(sq), 1), M(shrink(sq - 1), 1), M(sq, nrhs), n=sq)
+            elif f == "gttrf": lapack.gttrf(M(sq - 1, 1), M(sq, 1), M(sq - 1, 1), M(shrink(sq - 2), 1), ip(shrink(sq)), n=sq)
+            elif f == "ptsv": lapack.ptsv(M(shrink(sq), 1, "d"), M(shrink(sq - 1), 1), M(sq, nrhs), n=sq)
+            elif f == "pbtrs": lapack.pbtrs(M(2, sq), M(shrink(sq), nrhs))
+            o["raised"] = "none"
+        except Exception as e:     # noqa
+            o["raised"] = type(e).__name__
+        res.append(o)
+    return res
+
+
 def run_dense_programs(progs):
     from harness.checks import c15
     out = []
@@ -344,6 +506,18 @@ def main():
         cases = base_large_cases(rnd, n)
         out["cases"] = cases
         out["results"] = isolated(run_base_large, cases, 120, 25)
+    elif fam == "index":
+        cases = index_cases(rnd, n)
+        out["cases"] = cases
+        out["results"] = isolated(run_index, cases, 120, 100)
+    elif fam == "gemvbox":
+        cases = gemvbox_cases(rnd, n)
+        out["cases"] = cases
+        out["results"] = isolated(run_gemvbox, cases, 120, 50)
+    elif fam == "lapack-shapes":
+        cases = lapack_shape_cases(rnd, n)
+        out["cases"] = cases
+        out["results"] = isolated(run_lapack_shapes, cases, 120, 20)
     elif fam == "shapes":
         cases = shape_cases(rnd, n)
         out["cases"] = cases
